@@ -1,7 +1,7 @@
 (* C04 - Name conflicts and reserved-name misuse are rejected at construction. *)
 From Coq Require Import List String Bool.
 Import ListNotations.
-From ClasticV Require Import Base.Py Base.FSet Gen.Tables Model.Chain
+From ClasticV Require Import Gen.ChainShape Base.Py Base.FSet Gen.Tables Model.Chain
      Model.Exec Proofs.ChainProofs Proofs.ExecProofs Proofs.RouteProofs Proofs.OnionProofs Proofs.ValueProofs Proofs.NestedProofs.
 Local Open Scope string_scope.
 Local Open Scope list_scope.
@@ -76,3 +76,38 @@ Proof.
   exact (accept_disjoint (nested_route_cfg o a m2) pr Hr).
 Qed.
 Print Assumptions C04_nested_sources_distinct.
+
+(* obligation on the source: the control-flow skeletons of check_middleware and check_middlewares, regenerated from the source on every run.  The model is a
+   hand transcription of exactly these statements: any edit re-opens the correspondence question (the check then searches
+   for a failing input and reports what it finds) *)
+Theorem C04_check_shape :
+  SK_CHECK_MIDDLEWARE =
+  ["for f_name in ('request', 'endpoint', 'render')";
+   "  func = getattr(mw, f_name, None)";
+   "  if not func";
+   "    continue";
+   "  if not callable(func)";
+   "    raise TypeError('expected %s.%s to be a function' % (mw.name, f_name))";
+   "  if not get_arg_names(func)[0] == 'next'";
+   "    raise TypeError(""middleware functions must take argument 'next' as the first parameter (%s.%s)"" % (mw.name, f_name))";
+   "return"] /\
+  SK_CHECK_MIDDLEWARES =
+  ["args_dict = args_dict or {}";
+   "provided_by = defaultdict(list)";
+   "for (source, arg_list) in args_dict.items()";
+   "  for arg_name in arg_list";
+   "    provided_by[arg_name].append(source)";
+   "for mw in middlewares";
+   "  check_middleware(mw)";
+   "  for arg in mw.provides";
+   "    provided_by[arg].append(mw)";
+   "  for arg in mw.endpoint_provides";
+   "    provided_by[arg].append(mw)";
+   "  for arg in mw.render_provides";
+   "    provided_by[arg].append(mw)";
+   "conflicts = [(n, tuple(ps)) for n, ps in provided_by.items() if len(ps) > 1]";
+   "if conflicts";
+   "  raise NameError('found conflicting provides: %r' % conflicts)";
+   "return True"].
+Proof. repeat split; reflexivity. Qed.
+Print Assumptions C04_check_shape.
